@@ -9,6 +9,7 @@ import (
 	"strconv"
 	"strings"
 
+	"golang.org/x/tools/go/cfg"
 	"golang.org/x/tools/go/ssa"
 )
 
@@ -48,6 +49,7 @@ func checkC18(w *World, r *Report) {
 	checkC18Returns(w, r, pkg)
 	checkC18Direction(w, r)
 	checkC18Defaults(w, r)
+	checkC18EveryItem(w, r)
 }
 
 func checkC18Ranges(w *World, r *Report, pkg interface{ String() string }) {
@@ -418,4 +420,116 @@ func checkC18Defaults(w *World, r *Report) {
 		}
 	})
 	ru.Check("orSlice", w.Pos(or.Pos()), "returns the first argument whose length is > 0", okOr, fmt.Sprint(okOr))
+}
+
+// checkC18EveryItem: the header iterators hand every list item to the consumer, valid or not (an invalid or empty
+// item is yielded as nil). The strategies count positions from the right (trusted count) and stop at the first
+// non-address (trusted range); an iterator that silently skips an item shifts every position to its left.
+func checkC18EveryItem(w *World, r *Report) {
+	ru := r.Rule("C18.5", "every list item is yielded: in both header iterators, every path through the body of the loop over the split header line reaches the call of yield before the next iteration or a return (no item is filtered out)", 2)
+	cp := modulePath + "/clientip"
+	p := w.ByPath[cp]
+	if p == nil {
+		anchorFail("package %s", cp)
+	}
+	for _, name := range []string{"backwardIpAddrSeq", "ipAddrSeq"} {
+		var fd *ast.FuncDecl
+		for _, f := range p.Syntax {
+			for _, d := range f.Decls {
+				if x, ok := d.(*ast.FuncDecl); ok && x.Name.Name == name && x.Recv == nil {
+					fd = x
+				}
+			}
+		}
+		if fd == nil {
+			anchorFail("function clientip.%s (syntax)", name)
+		}
+		var lit *ast.FuncLit
+		ast.Inspect(fd.Body, func(n ast.Node) bool {
+			if l, ok := n.(*ast.FuncLit); ok && lit == nil && len(l.Type.Params.List) == 1 {
+				lit = l
+			}
+			return lit == nil
+		})
+		if lit == nil {
+			r.Unrecognised("C18.5: %s does not return a func(yield) literal", name)
+			continue
+		}
+		yieldName := lit.Type.Params.List[0].Names[0].Name
+		af := newAstFunc(w, p, &ast.FuncDecl{Name: fd.Name, Type: lit.Type, Body: lit.Body})
+		// innermost range over a Split*StringSeq call
+		var rng *ast.RangeStmt
+		ast.Inspect(lit.Body, func(n ast.Node) bool {
+			if rs, ok := n.(*ast.RangeStmt); ok {
+				if call, ok := rs.X.(*ast.CallExpr); ok && strings.HasSuffix(exprStr(call.Fun), "SplitStringSeq") {
+					rng = rs
+				}
+			}
+			return true
+		})
+		if rng == nil {
+			r.Unrecognised("C18.5: %s has no loop over a split header line", name)
+			continue
+		}
+		var body *cfg.Block
+		yieldBlocks := map[*cfg.Block]bool{}
+		for _, b := range af.g.Blocks {
+			if !b.Live {
+				continue
+			}
+			if b.Kind == cfg.KindRangeBody && b.Stmt == ast.Stmt(rng) {
+				body = b
+			}
+			for _, nd := range b.Nodes {
+				ast.Inspect(nd, func(n ast.Node) bool {
+					if call, ok := n.(*ast.CallExpr); ok {
+						if id, ok := call.Fun.(*ast.Ident); ok && id.Name == yieldName && rng.Body.Pos() <= call.Pos() && call.Pos() < rng.Body.End() {
+							yieldBlocks[b] = true
+						}
+					}
+					return true
+				})
+			}
+		}
+		if body == nil || len(yieldBlocks) == 0 {
+			r.Unrecognised("C18.5: %s: loop body or yield call not found in the control-flow graph", name)
+			continue
+		}
+		bad := ""
+		seen := map[*cfg.Block]bool{}
+		var dfs func(b *cfg.Block)
+		dfs = func(b *cfg.Block) {
+			if seen[b] || bad != "" || yieldBlocks[b] {
+				return
+			}
+			seen[b] = true
+			if b != body && (b.Stmt == ast.Stmt(rng) && (b.Kind == cfg.KindRangeLoop || b.Kind == cfg.KindRangeDone)) {
+				bad = "the next iteration is reached without yielding the item"
+				if len(b.Nodes) > 0 {
+					bad += " (via " + w.Pos(b.Nodes[0].Pos()) + ")"
+				}
+				return
+			}
+			if len(b.Succs) == 0 {
+				bad = "the iterator returns without yielding the item"
+				return
+			}
+			for _, s := range b.Succs {
+				if s.Live {
+					dfs(s)
+				}
+			}
+		}
+		dfs(body)
+		// name the skipping statement if there is one
+		if bad != "" {
+			ast.Inspect(rng.Body, func(n ast.Node) bool {
+				if br, ok := n.(*ast.BranchStmt); ok && br.Tok == token.CONTINUE {
+					bad += "; continue at " + w.Pos(br.Pos())
+				}
+				return true
+			})
+		}
+		ru.Check("list-item loop of "+name, w.Pos(rng.Pos()), "yield is called for every item of the split header line", bad == "", orDefault(bad, "yield post-dominates the loop body entry"))
+	}
 }
